@@ -26,21 +26,49 @@ def main():
         names.append(name)
     p, q = Symbol("p"), Symbol("q")
     asserts = [Or(p, q), p]
-    res = {"res": "raised", "exc": "", "value": "na", "model": []}
-    with Portfolio(names, environment=env, logic=QF_BOOL, incremental=True, generate_models=True) as port:
-        for a in asserts:
-            port.add_assertion(a)
+    from pysmt.shortcuts import Not
+    rounds = []
+
+    def one_round(port, live, label):
+        rd = {"label": label, "res": "raised", "exc": "", "value": "na", "model": [], "asserts": [str(a) for a in live]}
+        for i in range(len(behs)):          # the markers say "this solve's external solvers have all ended"
+            try:
+                os.unlink(os.path.join(markerdir, "m%d" % (i + 1)))
+            except OSError:
+                pass
         try:
             r = port.solve()
-            res["res"] = "sat" if r else "unsat"
+            rd["res"] = "sat" if r else "unsat"
             if r:
-                v = port.get_value(And(asserts))
-                res["value"] = "true" if v.is_true() else ("false" if v.is_false() else "other")
-                res["model"] = [[s.symbol_name(), bool(port.get_value(s).is_true())] for s in (p, q)]
+                v = port.get_value(And(live))
+                rd["value"] = "true" if v.is_true() else ("false" if v.is_false() else "other")
+                rd["model"] = [[s.symbol_name(), bool(port.get_value(s).is_true())] for s in (p, q)]
         except Exception as ex:
-            res["exc"] = type(ex).__name__
+            rd["exc"] = type(ex).__name__
+        rounds.append(rd)
+        return rd["res"] != "raised"
+    with Portfolio(names, environment=env, logic=QF_BOOL, incremental=True, generate_models=True) as port:
+        live = list(asserts)
+        for a in asserts:
+            port.add_assertion(a)
+        if one_round(port, live, "solve") and os.environ.get("C19_CYCLE"):
+            # repeated solve / one-shot query / push-pop cycle on the same portfolio
+            try:
+                port.is_sat(Not(q))
+                port.add_assertion(Or(Not(p), Not(q)))
+                live = live + [Or(Not(p), Not(q))]
+                ok = one_round(port, live, "is_sat, add_assertion, solve")
+                if ok:
+                    port.push()
+                    port.add_assertion(q)
+                    ok = one_round(port, live + [q], "push, add_assertion, solve")
+                if ok:
+                    port.pop()
+                    one_round(port, live, "pop, solve")
+            except Exception as ex:
+                rounds.append({"label": "cycle", "res": "raised", "exc": type(ex).__name__, "value": "na", "model": [], "asserts": []})
         with open(out + ".tmp", "w") as f:
-            json.dump(res, f)
+            json.dump({"rounds": rounds}, f)
         os.rename(out + ".tmp", out)
 
 
